@@ -46,7 +46,10 @@ use std::fmt::Error;
 use std::fmt::Formatter;
 use std::ops::Range;
 use std::time::Duration;
+#[cfg(not(dmd_core_verif))]
 use std::time::Instant;
+#[cfg(dmd_core_verif)]
+use crate::verif::clock::Instant;
 
 const START_ADDR: usize = 0x200000;
 const END_ADDR: usize = 0x2000040;
@@ -611,6 +614,56 @@ impl Duart {
             }
             _ => {}
         }
+    }
+}
+
+#[cfg(dmd_core_verif)]
+impl Duart {
+    /// Read-only view of the complete DUART state as plain integers.
+    ///
+    /// Layout: for each port: mode[0], mode[1], mode_ptr, stat, conf,
+    /// rx fifo (length, then bytes in pop order), rx_shift_reg,
+    /// tx_holding_reg, tx_shift_reg (-1 when empty), rx_deque and
+    /// tx_deque (length, then bytes in delivery order), char_delay,
+    /// next_tx_service, next_rx_service (nanoseconds); then acr, ipcr,
+    /// inprt, outprt, isr, imr, ivec, next_vblank.
+    pub fn verif_snapshot(&self) -> Vec<i64> {
+        fn opt(o: Option<u8>) -> i64 {
+            match o {
+                Some(c) => i64::from(c),
+                None => -1,
+            }
+        }
+        let mut v: Vec<i64> = Vec::new();
+        for p in self.ports.iter() {
+            v.push(i64::from(p.mode[0]));
+            v.push(i64::from(p.mode[1]));
+            v.push(p.mode_ptr as i64);
+            v.push(i64::from(p.stat));
+            v.push(i64::from(p.conf));
+            let fifo = p.rx_fifo.verif_contents();
+            v.push(fifo.len() as i64);
+            v.extend(fifo.iter().map(|c| i64::from(*c)));
+            v.push(opt(p.rx_shift_reg));
+            v.push(opt(p.tx_holding_reg));
+            v.push(opt(p.tx_shift_reg));
+            v.push(p.rx_deque.len() as i64);
+            v.extend(p.rx_deque.iter().rev().map(|c| i64::from(*c)));
+            v.push(p.tx_deque.len() as i64);
+            v.extend(p.tx_deque.iter().rev().map(|c| i64::from(*c)));
+            v.push(p.char_delay.as_nanos() as i64);
+            v.push(p.next_tx_service.0 as i64);
+            v.push(p.next_rx_service.0 as i64);
+        }
+        v.push(i64::from(self.acr));
+        v.push(i64::from(self.ipcr));
+        v.push(i64::from(self.inprt));
+        v.push(i64::from(self.outprt));
+        v.push(i64::from(self.isr));
+        v.push(i64::from(self.imr));
+        v.push(i64::from(self.ivec));
+        v.push(self.next_vblank.0 as i64);
+        v
     }
 }
 
